@@ -31,7 +31,7 @@ func (g *gen) path(d int, allowPred bool) *xp.Path {
 		case 6:
 			p.Steps = append(p.Steps, xp.Step{Kind: "self"})
 		default:
-			st := xp.Step{Kind: "name", Name: []string{"a", "b", "c", "div", "and", "mod", "or", "x-y", "n1"}[g.pick(9, "name")]}
+			st := xp.Step{Kind: "name", Name: []string{"a", "b", "c", "div", "and", "mod", "or", "x-y", "n1", "*", "*"}[g.pick(11, "name")]}
 			if g.pick(4, "pfx") == 0 {
 				st.Prefix = "p"
 			}
